@@ -1,9 +1,11 @@
 /- Driver ops for Connector.  Ops: connector.state, connector.step, connector.judge, connector.instance, connector.bounds,
-connector.solve -/
+connector.solve, connector.spec -/
 import JumanjiModel.Bridge.Json
 import JumanjiModel.Env.Connector.Model
 import JumanjiModel.Env.Connector.Bounds
 import JumanjiModel.Env.Connector.EpisodeLemmas
+import JumanjiModel.Env.Connector.SpecValid
+import JumanjiModel.Bridge.Spec
 open Lean Jb
 
 namespace Jb.Connector
@@ -41,6 +43,8 @@ def jObs (o : Obs) : Json :=
 def getObs (j : Json) : Except String Obs := do
   pure { grid := ← fIntGrid j "grid", actionMask := ← fBoolGrid j "action_mask", stepCount := ← fInt j "step_count" }
 
+def jNValue (v : Sp.NValue) : Json := jList (fun (e : String × Sp.Arr) => jObj [("key", jStr e.1), ("value", SpecOps.jArr e.2)]) v
+
 def getActs (cfg : Cfg) (j : Json) : Except String (List Int) := do
   let a ← fInts j "action"
   if a.length ≠ cfg.k then throw s!"expected {cfg.k} actions, got {a.length}"
@@ -72,7 +76,13 @@ def opState : Op := fun j => do
                ("obs", jObs (observe cfg.n s)),
                ("feasible", jBool (feasibleB cfg.n cfg.k s)),
                ("solution", jBool (solutionB cfg.n cfg.k s)),
-               ("consistent", jBool (consistentB cfg.n cfg.k s))]
+               ("consistent", jBool (consistentB cfg.n cfg.k s)),
+               -- wave 4 (C01): the timestep the model's `reset` builds on top of this state, the model observation as spec-level
+               -- arrays (`toNValue`), its membership in the model's `obsSpec cfg`, and the invariant of `connector_step_obs_valid`
+               ("reset_ts", jTimeStep jObs (resetTs cfg s)),
+               ("nvalue", jNValue (toNValue (observeL1 s))),
+               ("obs_in_spec", jBool ((obsSpec cfg).valid (toNValue (observeL1 s)))),
+               ("spec_inv", jBool (decide (SpecInv cfg s)))]
   match ← fOpt j "initial" pure with
   | none => pure (jObj base)
   | some ij =>
@@ -109,7 +119,11 @@ def opInstance : Op := fun j => do
   let sj ← field j "state"
   let s ← getState cfg sj
   let base := [("fresh_distinct_cells", jBool (freshB cfg.n cfg.k s)),
-               ("feasible", jBool (feasibleB cfg.n cfg.k s))]
+               ("feasible", jBool (feasibleB cfg.n cfg.k s)),
+               -- wave 4 (C01): the invariant behind `connector_step_obs_valid` and membership of the reset observation in the
+               -- symbolic `obsSpec cfg`, on the implementation's reset state
+               ("spec_inv", jBool (decide (SpecInv cfg s))),
+               ("reset_obs_in_spec", jBool ((obsSpec cfg).valid (toNValue (resetTs cfg s).obs)))]
   let base := match ← fOpt cj "generator" getStr with
     | some "uniform" =>
       let cells := uniformDrawOf cfg.n s
@@ -160,7 +174,14 @@ def opSolve : Op := fun j => do
               ("solution", jBool (solutionB cfg.n cfg.k sT)),
               ("returns", jRats ((List.range cfg.k).map (returnL1 cfg s acts)))])
 
+/-- {cfg} → the model's `obsSpec cfg`, `actionSpec cfg`, reward and discount spec in the `speclib.leaf_json` layout -/
+def opSpec : Op := fun j => do
+  let cfg ← getCfg (← field j "cfg")
+  pure (jObj [("observation_spec", SpecOps.jNested (obsSpec cfg)), ("action_spec", SpecOps.jLeaf (actionSpec cfg)),
+              ("reward_spec", SpecOps.jLeaf (rewardSpec cfg)), ("discount_spec", SpecOps.jLeaf (discountSpec cfg)),
+              ("action_spec_wf", jBool (actionSpec cfg).WF), ("generate_value", SpecOps.jArr (actionSpec cfg).generate)])
+
 def ops : List (String × Op) :=
-  [("connector.step", opStep), ("connector.state", opState), ("connector.judge", opJudge),
+  [("connector.spec", opSpec), ("connector.step", opStep), ("connector.state", opState), ("connector.judge", opJudge),
    ("connector.instance", opInstance), ("connector.bounds", opBounds), ("connector.solve", opSolve)]
 end Jb.Connector
